@@ -105,6 +105,11 @@ func main() {
 			usage()
 		}
 		os.Exit(replay(os.Args[2], os.Args[3]))
+	case "replay1":
+		if len(os.Args) < 4 {
+			usage()
+		}
+		os.Exit(replay1(os.Args[2], os.Args[3]))
 	case "onerun":
 		os.Exit(onerun(os.Args[2:]))
 	case "selftest":
@@ -204,6 +209,7 @@ func worker(args []string) int {
 	for i := wi; i < N; i += W {
 		curStart.Store(time.Now().UnixNano())
 		curRun.Store(int64(i))
+		_ = os.WriteFile(out+".cur", []byte(strconv.Itoa(i)), 0o644)
 		if !deadline.IsZero() && time.Now().After(deadline) {
 			wo.Extra["runs_cut_by_wallclock_cap"] += (N - i + W - 1) / W
 			break
@@ -439,24 +445,81 @@ func selftest(ids []string) int {
 
 // ---------------------------------------------------------------- replay
 
+// replay is the supervisor: the run itself happens in a child process
+// (replay1) so that a death of that process - a Go fatal error such as a stack
+// overflow cannot be recovered - is still turned into a verdict, and so that
+// the race detector's log (GORACE is only read at process start) can be set up.
 func replay(id, path string) int {
-	if checks.RaceBuild() && !strings.Contains(os.Getenv("GORACE"), "log_path=") {
-		// the race detector's reports must go to a file this process can read
-		// back; GORACE is only honoured at process start, so re-exec
-		dir, err := os.MkdirTemp("", "verif-race-")
-		if err == nil {
-			self, _ := os.Executable()
-			cmd := exec.Command(self, os.Args[1:]...)
-			cmd.Env = append(os.Environ(), "GORACE=halt_on_error=0 exitcode=0 log_path="+filepath.Join(dir, "race"))
-			cmd.Stdout, cmd.Stderr = os.Stdout, os.Stderr
-			_ = cmd.Run()
-			os.RemoveAll(dir)
-			if cmd.ProcessState != nil {
-				return cmd.ProcessState.ExitCode()
-			}
-			return exitHarness
-		}
+	if _, ok := checks.Get(id); !ok {
+		fmt.Fprintln(os.Stderr, "unknown check", id)
+		return exitHarness
 	}
+	self, _ := os.Executable()
+	dir, err := os.MkdirTemp("", "verif-replay-")
+	if err != nil {
+		fmt.Fprintln(os.Stderr, err)
+		return exitHarness
+	}
+	defer os.RemoveAll(dir)
+	cmd := exec.Command(self, "replay1", id, path)
+	cmd.Env = append(os.Environ(), "GORACE=halt_on_error=0 exitcode=0 log_path="+filepath.Join(dir, "race"))
+	out, _ := cmd.CombinedOutput()
+	os.Stdout.Write(out)
+	code := -1
+	if cmd.ProcessState != nil {
+		code = cmd.ProcessState.ExitCode()
+	}
+	if code == exitOK || code == exitViolation {
+		return code
+	}
+	if site, what, ok := libraryDeath(string(out)); ok {
+		fmt.Printf("class: %s/process-death@%s\nthe process died inside the library: %s\nVIOLATION property=%s replay=%s\n", strings.ToLower(id), site, what, id, path)
+		return exitViolation
+	}
+	return exitHarness
+}
+
+// libraryDeath inspects the output of a dead process: a Go "fatal error" or
+// unrecovered panic whose innermost non-runtime frame belongs to
+// go-unixfsnode is attributed to the library.
+func libraryDeath(out string) (site, what string, ok bool) {
+	i := strings.Index(out, "fatal error:")
+	if i < 0 {
+		i = strings.Index(out, "panic:")
+	}
+	if i < 0 {
+		return "", "", false
+	}
+	rest := out[i:]
+	what = strings.SplitN(rest, "\n", 2)[0]
+	j := strings.Index(rest, "goroutine ")
+	if j < 0 {
+		return "", what, false
+	}
+	for _, line := range strings.Split(rest[j:], "\n")[1:] {
+		if line == "" {
+			break
+		}
+		if strings.HasPrefix(line, "\t") || strings.HasPrefix(line, " ") {
+			continue
+		}
+		fn := line
+		if k := strings.LastIndex(fn, "("); k > 0 {
+			fn = fn[:k]
+		}
+		if strings.HasPrefix(fn, "runtime.") || strings.HasPrefix(fn, "internal/") || strings.HasPrefix(fn, "sync.") || strings.HasPrefix(fn, "io.") || strings.HasPrefix(fn, "bytes.") {
+			continue
+		}
+		const sut = "github.com/ipfs/go-unixfsnode"
+		if strings.HasPrefix(fn, sut) {
+			return strings.TrimPrefix(strings.TrimPrefix(fn, sut), "/"), what, true
+		}
+		return fn, what, false
+	}
+	return "", what, false
+}
+
+func replay1(id, path string) int {
 	ck, ok := checks.Get(id)
 	if !ok {
 		fmt.Fprintln(os.Stderr, "unknown check", id)
@@ -594,24 +657,50 @@ func master(id string, tier checks.Tier) int {
 		}(w)
 	}
 	harnessTrouble := false
+	var deadOut, deaths []string
 	for w := 0; w < W; w++ {
 		r := <-done
 		if r.err != nil && r.code == 3 {
 			continue // watchdog: handled below through the .hang marker
 		}
 		if r.err != nil {
-			harnessTrouble = true
-			fmt.Fprintf(os.Stderr, "worker failed (exit %d): %v\n%s\n", r.code, r.err, tail(r.out, 4000))
+			deadOut = append(deadOut, r.out)
 		}
 	}
 	var hangs []string
+	// a dead worker: replay the run it was in; if the death reproduces in a
+	// fresh process and lies inside the library it is a finding, otherwise it
+	// is harness trouble
+	for w := 0; w < W; w++ {
+		if _, err := os.Stat(filepath.Join(tmp, fmt.Sprintf("w%d.json", w))); err == nil {
+			continue
+		}
+		if _, err := os.Stat(filepath.Join(tmp, fmt.Sprintf("w%d.json.hang", w))); err == nil {
+			continue
+		}
+		b, err := os.ReadFile(filepath.Join(tmp, fmt.Sprintf("w%d.json.cur", w)))
+		if err != nil {
+			harnessTrouble = true
+			continue
+		}
+		i, _ := strconv.Atoi(string(b))
+		rf := &replayFile{Property: id, VerifSeed: seed, RunIndex: i, RunSeed: runSeed(seed, id, i), Tier: string(tier), Class: "process-death", Msg: "the worker process died during this run"}
+		jb, _ := json.MarshalIndent(rf, "", " ")
+		path := filepath.Join(outDir(), "replays", fmt.Sprintf("%s-%d-%d-death.json", id, seed, i))
+		_ = os.MkdirAll(filepath.Dir(path), 0o755)
+		_ = os.WriteFile(path, jb, 0o644)
+		deaths = append(deaths, path)
+	}
 	for w := 0; w < W; w++ {
 		if b, err := os.ReadFile(filepath.Join(tmp, fmt.Sprintf("w%d.json.hang", w))); err == nil {
 			hangs = append(hangs, string(b))
 		}
 	}
 	if harnessTrouble {
-		fmt.Fprintln(os.Stderr, "harness trouble: a worker process died; no verdict")
+		for _, o := range deadOut {
+			fmt.Fprintln(os.Stderr, tail(o, 3000))
+		}
+		fmt.Fprintln(os.Stderr, "harness trouble: a worker process died and the run it was in is unknown; no verdict")
 		return exitHarness
 	}
 	// merge
@@ -622,6 +711,10 @@ func master(id string, tier checks.Tier) int {
 		if err != nil {
 			if _, herr := os.Stat(filepath.Join(tmp, fmt.Sprintf("w%d.json.hang", w))); herr == nil {
 				total.Extra["workers_stopped_by_watchdog"]++
+				continue
+			}
+			if _, cerr := os.Stat(filepath.Join(tmp, fmt.Sprintf("w%d.json.cur", w))); cerr == nil {
+				total.Extra["workers_died"]++
 				continue
 			}
 			fmt.Fprintln(os.Stderr, "missing worker output:", err)
@@ -718,6 +811,27 @@ func master(id string, tier checks.Tier) int {
 		fmt.Printf("violation class=%s: %s\n", cls, total.Msgs[i])
 		fmt.Printf("VIOLATION property=%s replay=%s\n", id, total.Violations[i])
 		reported++
+	}
+
+	// runs during which a worker died: confirm in a fresh process
+	for di, dp := range deaths {
+		if di > 0 && reported > 0 {
+			total.Extra["further_worker_deaths_not_replayed"]++
+			continue
+		}
+		cmd := exec.Command(self, "replay", id, dp)
+		out, _ := cmd.CombinedOutput()
+		code := -1
+		if cmd.ProcessState != nil {
+			code = cmd.ProcessState.ExitCode()
+		}
+		if code == exitViolation {
+			fmt.Print(tail(string(out), 700))
+			reported++
+		} else {
+			fmt.Fprintf(os.Stderr, "harness trouble: a worker died in run %s and the replay exits %d (not attributable to the library):\n%s\n", dp, code, tail(string(out), 3000))
+			harnessTrouble = true
+		}
 	}
 
 	// runs stopped by the watchdog: confirm in a fresh process
